@@ -10,10 +10,18 @@
 //!          | props <n|~> { <deposit> }* | mint <overwrite 0|1> <policy hex> <name hex|-> <amount>
 //!          | don <c> | treas <c> | fee <c> | minfee <c> | change <addr> <extra>
 //!          | selchange <strategy 0..3> <addr> <extra> <k> { <id> }* | build
+//!          | col <k> { <id> }*                                    set_collateral
+//!          | pct <strategy> <addr> <extra> <pct> <k> { <id> }*     add_inputs_from_and_change_with_collateral_return
+//!          | mintout <policy> <name> <amount> <addr> <extra> <coin>   add_mint_asset_and_output
+//!          | mintoutmin <policy> <name> <amount> <addr> <extra>      add_mint_asset_and_output_min_required_coin
+//!          | addmint <policy> <name> <amount>                      add_mint_asset (deprecated)
+//!          | dmint <scripts 0|1> <k> { <policy> <name> <amount> }*  set_mint (deprecated)
+//!          | dcerts <k> { <tag> <coin|~> <script 0|1> }*           set_certs (deprecated)
+//!          | dwd <k> { <addr> <coin> <script 0|1> }*               set_withdrawals (deprecated)
 //!   addr  = address id (>= 1; kind and bytes are a function of the id), extra = 0 none, 1 datum hash, 2 inline datum,
 //!           3 script ref, 4 inline datum + script ref.  UTxO id i is outpoint (hash(i), i mod 7) locked by key address.
 //! Result line (implementation):
-//!   ok R <n> {ok|t|f|err|panic}*  S <fee|~> <nouts> {<addr> <extra> VALUE}* <nins> {<id>}*  TX <~ | BODY>
+//!   ok R <n> {ok|t|f|err|panic}*  S <fee|~> <nouts> {<addr> <extra> VALUE}* <nins> {<id>}* COL <k> {<id>}* <~ | <addr> VALUE> <total|~>  TX <~ | BODY>
 //!      ORA <nops> { <k> {<site> <answer|e>}*k <~ | <ok 0|1> <m> {<id>}*m> }*
 //!   BODY := <nin> {id}* <nout> {<addr> <extra> VALUE}* <fee> <ncert> {<tag> <coin|~>}* <nwd> {<addr> <coin>}*
 //!           <nmint> {<policy> <name> <qty>}* <nprops> {<deposit>}* <donation>
@@ -100,6 +108,17 @@ fn mk_output(addr: u64, extra: u64, v: &Value) -> TransactionOutput {
     }
     o
 }
+fn amount_builder(addr: u64, extra: u64) -> TransactionOutputAmountBuilder {
+    let mut b = TransactionOutputBuilder::new().with_address(&address(addr));
+    match extra {
+        1 => { b = b.with_data_hash(&datum_hash()); }
+        2 => { b = b.with_plutus_data(&inline_datum()); }
+        3 => { b = b.with_script_ref(&ref_script()); }
+        4 => { b = b.with_plutus_data(&inline_datum()).with_script_ref(&ref_script()); }
+        _ => {}
+    }
+    b.next().unwrap()
+}
 fn extra_of(o: &TransactionOutput) -> u64 {
     match (o.has_data_hash(), o.has_plutus_data(), o.has_script_ref()) {
         (true, _, false) => 1,
@@ -112,8 +131,9 @@ fn extra_of(o: &TransactionOutput) -> u64 {
 }
 
 /// A real certificate of CDDL kind `tag` (key credentials, pairwise distinct through `i`).
-fn mk_cert(tag: u32, coin: Option<BigNum>, i: u64) -> Certificate {
-    let c = kcred(i, 1);
+fn mk_cert(tag: u32, coin: Option<BigNum>, i: u64) -> Certificate { mk_cert_s(tag, coin, i, false) }
+fn mk_cert_s(tag: u32, coin: Option<BigNum>, i: u64, script: bool) -> Certificate {
+    let c = if script { Credential::from_scripthash(&scripthash(i, 1)) } else { kcred(i, 1) };
     let pool = keyhash(i, 2);
     let odd = i % 2 == 1;
     let amt = || coin.clone().expect("coin for this kind");
@@ -254,6 +274,14 @@ enum Op {
     Change(u64, u64),
     SelChange(u32, u64, u64, Vec<u64>),
     Build,
+    Col(Vec<u64>),
+    Pct(u32, u64, u64, BigNum, Vec<u64>),
+    MintOut(Vec<u8>, Vec<u8>, String, u64, u64, BigNum),
+    MintOutMin(Vec<u8>, Vec<u8>, String, u64, u64),
+    AddMint(Vec<u8>, Vec<u8>, String),
+    DMint(bool, Vec<(Vec<u8>, Vec<u8>, String)>),
+    DCerts(Vec<(u32, Option<BigNum>, bool)>),
+    DWd(Vec<(u64, BigNum, bool)>),
 }
 fn opt_bn_s(o: &Option<BigNum>) -> String { match o { Some(v) => v.to_str(), None => "~".into() } }
 impl Op {
@@ -275,6 +303,14 @@ impl Op {
             Op::Change(a, e) => format!("change {} {}", a, e),
             Op::SelChange(st, a, e, ids) => { let mut s = format!("selchange {} {} {} {}", st, a, e, ids.len()); for i in ids { s.push_str(&format!(" {}", i)); } s }
             Op::Build => "build".into(),
+            Op::Col(ids) => { let mut s = format!("col {}", ids.len()); for i in ids { s.push_str(&format!(" {}", i)); } s }
+            Op::Pct(st, a, e, pct, ids) => { let mut s = format!("pct {} {} {} {} {}", st, a, e, pct.to_str(), ids.len()); for i in ids { s.push_str(&format!(" {}", i)); } s }
+            Op::MintOut(p, n, amt, a, e, c) => format!("mintout {} {} {} {} {} {}", hex::encode(p), hex_or_dash(n), amt, a, e, c.to_str()),
+            Op::MintOutMin(p, n, amt, a, e) => format!("mintoutmin {} {} {} {} {}", hex::encode(p), hex_or_dash(n), amt, a, e),
+            Op::AddMint(p, n, amt) => format!("addmint {} {} {}", hex::encode(p), hex_or_dash(n), amt),
+            Op::DMint(ok, es) => { let mut s = format!("dmint {} {}", *ok as u8, es.len()); for (p, n, a) in es { s.push_str(&format!(" {} {} {}", hex::encode(p), hex_or_dash(n), a)); } s }
+            Op::DCerts(cs) => { let mut s = format!("dcerts {}", cs.len()); for (t, c, sc) in cs { s.push_str(&format!(" {} {} {}", t, opt_bn_s(c), *sc as u8)); } s }
+            Op::DWd(ws) => { let mut s = format!("dwd {}", ws.len()); for (a, c, sc) in ws { s.push_str(&format!(" {} {} {}", a, c.to_str(), *sc as u8)); } s }
         }
     }
 }
@@ -336,6 +372,14 @@ fn parse(toks: &[String]) -> Scenario {
             "change" => { let a = p.u64(); Op::Change(a, p.u64()) }
             "selchange" => { let st: u32 = p.next().parse().unwrap(); let a = p.u64(); let e = p.u64(); let k = p.count().unwrap(); Op::SelChange(st, a, e, (0..k).map(|_| p.u64()).collect()) }
             "build" => Op::Build,
+            "col" => { let k = p.count().unwrap(); Op::Col((0..k).map(|_| p.u64()).collect()) }
+            "pct" => { let st: u32 = p.next().parse().unwrap(); let a = p.u64(); let e = p.u64(); let pct = bn(p.next()); let k = p.count().unwrap(); Op::Pct(st, a, e, pct, (0..k).map(|_| p.u64()).collect()) }
+            "mintout" => { let pol = hex::decode(p.next()).unwrap(); let n = unhex_or_dash(p.next()); let amt = p.next().to_string(); let a = p.u64(); let e = p.u64(); Op::MintOut(pol, n, amt, a, e, bn(p.next())) }
+            "mintoutmin" => { let pol = hex::decode(p.next()).unwrap(); let n = unhex_or_dash(p.next()); let amt = p.next().to_string(); let a = p.u64(); Op::MintOutMin(pol, n, amt, a, p.u64()) }
+            "addmint" => { let pol = hex::decode(p.next()).unwrap(); let n = unhex_or_dash(p.next()); Op::AddMint(pol, n, p.next().to_string()) }
+            "dmint" => { let ok = p.next() == "1"; let k = p.count().unwrap(); Op::DMint(ok, (0..k).map(|_| { let pol = hex::decode(p.next()).unwrap(); let n = unhex_or_dash(p.next()); (pol, n, p.next().to_string()) }).collect()) }
+            "dcerts" => { let k = p.count().unwrap(); Op::DCerts((0..k).map(|_| { let t: u32 = p.next().parse().unwrap(); let c = p.opt_bn(); (t, c, p.next() == "1") }).collect()) }
+            "dwd" => { let k = p.count().unwrap(); Op::DWd((0..k).map(|_| { let a = p.u64(); let c = bn(p.next()); (a, c, p.next() == "1") }).collect()) }
             x => panic!("bad op {}", x),
         };
         ops.push(op);
@@ -348,7 +392,6 @@ fn parse(toks: &[String]) -> Scenario {
 
 struct World {
     tb: TransactionBuilder,
-    mint: MintBuilder,
     utxos: HashMap<u64, Val>,
     addr_ids: HashMap<Vec<u8>, u64>,
     policy_idx: HashMap<Vec<u8>, u64>,
@@ -372,7 +415,7 @@ fn new_world(sc: &Scenario) -> World {
         .build().unwrap();
     let mut policy_idx = HashMap::new();
     for i in 0..N_POLICIES { policy_idx.insert(policy_script(i).hash().to_bytes(), i); }
-    World { tb: TransactionBuilder::new(&cfg), mint: MintBuilder::new(), utxos: sc.utxos.iter().cloned().collect(),
+    World { tb: TransactionBuilder::new(&cfg), utxos: sc.utxos.iter().cloned().collect(),
             addr_ids: HashMap::new(), policy_idx }
 }
 
@@ -443,8 +486,9 @@ fn run_op(w: &mut World, op: &Op, last_tx: &mut Option<Transaction>) -> OpRec {
                 let wit = MintWitness::new_native_script(&NativeScriptSource::new(&policy_script(idx)));
                 let name = AssetName::new(n.clone())?;
                 let amount = Int::from_str(amt)?;
-                if *ow { w.mint.set_asset(&wit, &name, &amount)?; } else { w.mint.add_asset(&wit, &name, &amount)?; }
-                w.tb.set_mint_builder(&w.mint);
+                let mut mb = w.tb.get_mint_builder().unwrap_or(MintBuilder::new());
+                if *ow { mb.set_asset(&wit, &name, &amount)?; } else { mb.add_asset(&wit, &name, &amount)?; }
+                w.tb.set_mint_builder(&mb);
                 Ok(())
             });
             OpRec { res: res_unit(r), tape: vec![], sel: None, attempts: 0 }
@@ -492,6 +536,118 @@ fn run_op(w: &mut World, op: &Op, last_tx: &mut Option<Transaction>) -> OpRec {
             let tape = all[from..].iter().cloned().filter(|(s, _)| *s != b'C').collect();
             let attempts = all.iter().filter(|(s, _)| *s == b'C').count();
             OpRec { res: res_bool(r), tape, sel: Some((sel_ok, added)), attempts }
+        }
+        Op::Col(ids) => {
+            let mut b = TxInputsBuilder::new();
+            for id in ids { if let Some(u) = utxo(w, *id) { let o = u.output(); b.add_regular_input(&o.address(), &u.input(), &o.amount()).expect("key address"); } }
+            w.tb.set_collateral(&b);
+            OpRec { res: "ok".into(), tape: vec![], sel: None, attempts: 0 }
+        }
+        Op::Pct(st, a, e, pct, ids) => {
+            note_addr(w, *a);
+            let mut avail = TransactionUnspentOutputs::new();
+            for id in ids { if let Some(u) = utxo(w, *id) { avail.add(&u); } }
+            let strategy = |s: u32| match s { 0 => CoinSelectionStrategyCIP2::LargestFirst, 1 => CoinSelectionStrategyCIP2::RandomImprove,
+                2 => CoinSelectionStrategyCIP2::LargestFirstMultiAsset, _ => CoinSelectionStrategyCIP2::RandomImproveMultiAsset };
+            let script: Vec<u64> = { let mut r = Rng::new(ids.len() as u64 * 37 + *a); (0..4096).map(|_| r.next() >> 8).collect() };
+            // what the selection alone does: on a copy carrying the same placeholder collateral fields
+            let before: Vec<u64> = { let ins = verif_builder_inputs(&w.tb); (0..ins.len()).map(|i| utxo_id_of(&ins.get(i))).collect() };
+            // the collateral inputs' total, as the entry point computes it
+            let col_total: Option<Value> = {
+                let (cins, _, _) = verif_builder_collateral(&w.tb);
+                let mut b = TxInputsBuilder::new();
+                for i in 0..cins.len() { if let Some(u) = utxo(w, utxo_id_of(&cins.get(i))) { let o = u.output(); b.add_regular_input(&o.address(), &u.input(), &o.amount()).expect("key address"); } }
+                b.total_value().ok()
+            };
+            let sel = match &col_total {
+                None => None,
+                Some(total) => {
+                    let mut copy = w.tb.clone();
+                    copy.set_total_collateral(&total.coin());
+                    copy.set_collateral_return(&TransactionOutput::new(&address(*a), total));
+                    verif_set_rng_script(Some(script.clone()));
+                    let sel_r = catch(|| copy.add_inputs_from(&avail, strategy(*st)));
+                    let after: Vec<u64> = { let ins = verif_builder_inputs(&copy); (0..ins.len()).map(|i| utxo_id_of(&ins.get(i))).collect() };
+                    let added: Vec<u64> = after.into_iter().filter(|i| !before.contains(i)).collect();
+                    Some((matches!(sel_r, Ok(Ok(()))), added))
+                }
+            };
+            let mut cc = ChangeConfig::new(&address(*a));
+            if let Some(d) = change_datum(*e) { cc = cc.change_plutus_data(&d); }
+            if *e == 3 || *e == 4 { cc = cc.change_script_ref(&ref_script()); }
+            verif_set_rng_script(Some(script));
+            verif_oracle_start();
+            let r = catch(|| w.tb.add_inputs_from_and_change_with_collateral_return(&avail, strategy(*st), &cc, pct));
+            let all = verif_oracle_take();
+            verif_set_rng_script(None);
+            let from = all.iter().position(|(s, _)| *s == b'C').unwrap_or(all.len());
+            let tape = all[from..].iter().cloned().filter(|(s, _)| *s != b'C').collect();
+            let attempts = all.iter().filter(|(s, _)| *s == b'C').count();
+            OpRec { res: res_unit(r), tape, sel, attempts }
+        }
+        Op::MintOut(p, n, amt, a, e, coin) => {
+            note_addr(w, *a);
+            verif_oracle_start();
+            let r = catch(|| -> Result<(), JsError> {
+                let idx = *w.policy_idx.get(p).ok_or(JsError::from_str("unknown policy"))?;
+                let name = AssetName::new(n.clone())?;
+                let amount = Int::from_str(amt)?;
+                w.tb.add_mint_asset_and_output(&policy_script(idx), &name, &amount, &amount_builder(*a, *e), coin)
+            });
+            OpRec { res: res_unit(r), tape: verif_oracle_take(), sel: None, attempts: 0 }
+        }
+        Op::MintOutMin(p, n, amt, a, e) => {
+            note_addr(w, *a);
+            verif_oracle_start();
+            let r = catch(|| -> Result<(), JsError> {
+                let idx = *w.policy_idx.get(p).ok_or(JsError::from_str("unknown policy"))?;
+                let name = AssetName::new(n.clone())?;
+                let amount = Int::from_str(amt)?;
+                w.tb.add_mint_asset_and_output_min_required_coin(&policy_script(idx), &name, &amount, &amount_builder(*a, *e))
+            });
+            OpRec { res: res_unit(r), tape: verif_oracle_take(), sel: None, attempts: 0 }
+        }
+        Op::AddMint(p, n, amt) => {
+            let r = catch(|| -> Result<(), JsError> {
+                let idx = *w.policy_idx.get(p).ok_or(JsError::from_str("unknown policy"))?;
+                let name = AssetName::new(n.clone())?;
+                let amount = Int::from_str(amt)?;
+                w.tb.add_mint_asset(&policy_script(idx), &name, &amount)
+            });
+            OpRec { res: res_unit(r), tape: vec![], sel: None, attempts: 0 }
+        }
+        Op::DMint(ok, es) => {
+            let r = catch(|| -> Result<(), JsError> {
+                let mut mint = Mint::new();
+                let mut scripts = NativeScripts::new();
+                for (p, n, amt) in es {
+                    let idx = *w.policy_idx.get(p).ok_or(JsError::from_str("unknown policy"))?;
+                    let script = policy_script(idx);
+                    mint.insert(&script.hash(), &MintAssets::new_from_entry(&AssetName::new(n.clone())?, &Int::from_str(amt)?)?);
+                    if *ok { scripts.add(&script); }
+                }
+                w.tb.set_mint(&mint, &scripts)
+            });
+            OpRec { res: res_unit(r), tape: vec![], sel: None, attempts: 0 }
+        }
+        Op::DCerts(cs) => {
+            let r = catch(|| -> Result<(), JsError> {
+                let mut coll = Certificates::new();
+                for (i, (t, c, sc)) in cs.iter().enumerate() { coll.add(&mk_cert_s(*t, c.clone(), i as u64, *sc)); }
+                w.tb.set_certs(&coll)
+            });
+            OpRec { res: res_unit(r), tape: vec![], sel: None, attempts: 0 }
+        }
+        Op::DWd(ws) => {
+            let r = catch(|| -> Result<(), JsError> {
+                let mut coll = Withdrawals::new();
+                for (a, c, sc) in ws {
+                    let ra = if *sc { RewardAddress::new(0, &Credential::from_scripthash(&scripthash(*a, 16))) } else { reward_address(*a) };
+                    coll.insert(&ra, c);
+                }
+                w.tb.set_withdrawals(&coll)
+            });
+            OpRec { res: res_unit(r), tape: vec![], sel: None, attempts: 0 }
         }
         Op::Build => {
             verif_oracle_start();
@@ -599,7 +755,7 @@ fn exec_shape(sc: &Scenario) -> (String, String) {
     let mut last_tx = None;
     let mut shape: Option<String> = None;
     for op in &sc.ops {
-        let balancing = matches!(op, Op::Change(..) | Op::SelChange(..)) && shape.is_none();
+        let balancing = matches!(op, Op::Change(..) | Op::SelChange(..) | Op::Pct(..)) && shape.is_none();
         let pre = if balancing {
             catch(|| -> Option<(Value, Value, BigNum, usize)> {
                 Some((w.tb.get_total_input().ok()?, w.tb.get_total_output().ok()?, w.tb.min_fee().ok()?, verif_builder_outputs(&w.tb).len()))
@@ -629,6 +785,13 @@ fn exec_rest(_sc: &Scenario, w: World, recs: Vec<OpRec>, last_tx: Option<Transac
     let ins = verif_builder_inputs(&w.tb);
     s.push_str(&format!(" {}", ins.len()));
     for i in 0..ins.len() { s.push_str(&format!(" {}", utxo_id_of(&ins.get(i)))); }
+    {
+        let (cins, cret, ctot) = verif_builder_collateral(&w.tb);
+        s.push_str(&format!(" COL {}", cins.len()));
+        for i in 0..cins.len() { s.push_str(&format!(" {}", utxo_id_of(&cins.get(i)))); }
+        match cret { None => s.push_str(" ~"), Some(o) => { let a = w.addr_ids.get(&o.address().to_bytes()).cloned().unwrap_or(0); s.push_str(&format!(" {} {}", a, show_value(&o.amount()))); } }
+        s.push_str(&format!(" {}", ctot.map(|c| c.to_str()).unwrap_or("~".into())));
+    }
     match &last_tx { None => s.push_str(" TX ~"), Some(tx) => { s.push_str(" TX "); s.push_str(&show_body(&w, tx)); } }
     s.push_str(&format!(" ORA {}", recs.len()));
     for r in &recs {
@@ -696,8 +859,8 @@ fn gen_scenario(r: &mut Rng, stream: u32) -> Scenario {
     let mut post: Vec<Op> = vec![];
     let edge = stream == 6;
     let label;
-    let n_utxo = match stream { 5 => r.range(3, 40), _ => r.range(1, 6) };
-    let with_assets = matches!(stream, 2 | 3 | 4 | 5) && r.chance(4, 5);
+    let n_utxo = match stream { 5 => r.range(3, 40), 7 => r.range(2, 12), _ => r.range(1, 6) };
+    let with_assets = (matches!(stream, 2 | 3 | 4 | 5) && r.chance(4, 5)) || (stream == 7 && r.chance(1, 2));
     let n_pol = r.range(1, 6);
     if stream == 3 { cfg.maxval = *r.pick(&[300u32, 200, 150, 120, 5000]); cfg.maxtx = 100000; }
     for k in 0..n_utxo {
@@ -709,7 +872,7 @@ fn gen_scenario(r: &mut Rng, stream: u32) -> Scenario {
     }
     if r.chance(1, 12) { utxos.push((4, Val::ada(r.range(2_000_000, 9_000_000)))); }
     // operations before balancing
-    if stream != 5 { for (id, _) in &utxos { pre.push(Op::In(*id)); } }
+    if stream != 5 && stream != 7 { for (id, _) in &utxos { pre.push(Op::In(*id)); } }
     let n_out = r.below(4);
     for _ in 0..n_out {
         let coin = gen_coin(r, if edge { 3 } else { 1 });
@@ -746,10 +909,48 @@ fn gen_scenario(r: &mut Rng, stream: u32) -> Scenario {
             }
         }
     }
+    // phase 2 entry points: mint together with an output, deprecated setters
+    if matches!(stream, 4 | 6 | 7) || r.chance(1, 10) {
+        let nm = r.below(3);
+        for _ in 0..nm {
+            let amt: i128 = match r.below(8) { 0 => 0, 1 => -(r.range(1, 9) as i128), 2 => r.u64_edge() as i128, _ => r.range(1, 100_000) as i128 };
+            let (p, n) = (policy_bytes(r.below(N_POLICIES)), gen_name(r));
+            match r.below(3) {
+                0 => pre.push(Op::MintOut(p, n, format!("{}", amt), r.range(1, 30), *r.pick(&[0u64, 0, 1, 2, 3]), b64(gen_coin(r, if edge { 3 } else { 1 })))),
+                1 => pre.push(Op::MintOutMin(p, n, format!("{}", amt), r.range(1, 30), *r.pick(&[0u64, 0, 1, 2, 4]))),
+                _ => pre.push(Op::AddMint(p, n, format!("{}", if r.chance(1, 3) { -amt } else { amt }))),
+            }
+        }
+        if r.chance(1, 4) {
+            let k = r.range(1, 3);
+            let es = (0..k).map(|_| { let a: i128 = match r.below(6) { 0 => -(1i128 << 64), 1 => -(r.range(1, 50) as i128), _ => r.range(1, 1_000_000) as i128 }; (policy_bytes(r.below(N_POLICIES)), gen_name(r), format!("{}", a)) }).collect();
+            pre.push(Op::DMint(r.chance(5, 6), es));
+        }
+        if r.chance(1, 3) { let cs = gen_certs(r, edge); let any_script = r.chance(1, 4); pre.push(Op::DCerts(cs.into_iter().map(|(t, c)| (t, c, any_script && r.chance(1, 2))).collect())); }
+        if r.chance(1, 3) { let n = r.range(1, 3); let any_script = r.chance(1, 4); pre.push(Op::DWd((0..n).map(|_| (r.range(1, 6), b64(if edge { r.u64_edge() } else { r.range(0, 3_000_000) }), any_script && r.chance(1, 2))).collect())); }
+    }
     if r.chance(1, 5) { pre.push(if r.chance(1, 2) { Op::Fee(b64(*r.pick(&[170_000u64, 200_000, 1_000_000, 0, 5_000_000]))) } else { Op::MinFee(b64(*r.pick(&[170_000u64, 250_000, 1_000_000, 0, 5_000_000]))) }); }
     shuffle(r, &mut pre);
     let change_addr = r.range(1, 30);
     match stream {
+        7 => {
+            // collateral inputs (ADA-only mostly), then balancing with the collateral return
+            let ids: Vec<u64> = utxos.iter().map(|(i, _)| *i).collect();
+            let ncol = r.range(0, 3);
+            let mut cols = vec![];
+            for k in 0..ncol {
+                let id = 400 + 5 * k + r.below(4);
+                let coin = if r.chance(1, 8) { r.u64_edge() } else { r.range(1_000_000, 20_000_000) };
+                let na = r.range(1, 3);
+                let assets = if r.chance(1, 6) { gen_assets(r, na, n_pol, false) } else { None };
+                utxos.push((id, Val { coin: b64(coin), assets }));
+                cols.push(id);
+            }
+            pre.push(Op::Col(cols));
+            if r.chance(1, 3) { pre.push(Op::In(*r.pick(&ids))); }
+            post.push(Op::Pct(r.below(4) as u32, change_addr, *r.pick(&[0u64, 0, 1, 2, 3, 4]), b64(*r.pick(&[150u64, 150, 100, 0, 1, 1000, 1 << 40, u64::MAX])), ids));
+            label = "pct";
+        }
         5 => {
             let ids: Vec<u64> = utxos.iter().map(|(i, _)| *i).collect();
             // some inputs may already be in the builder
@@ -801,7 +1002,7 @@ fn main() {
             let mut r = Rng::new(seed_from_env());
             let n = if is_thorough() { 100000 } else { 2400 };
             for k in 0..n {
-                let stream = match k % 12 { 0 | 1 => 0, 2 => 1, 3 | 4 => 2, 5 | 6 => 3, 7 | 8 => 4, 9 | 10 => 5, _ => 6 };
+                let stream = match k % 14 { 0 | 1 => 0, 2 => 1, 3 | 4 => 2, 5 | 6 => 3, 7 | 8 => 4, 9 | 10 => 5, 11 => 6, _ => 7 };
                 let mut sc = gen_scenario(&mut r, stream);
                 if matches!(stream, 0 | 1 | 2 | 4) && r.chance(1, 2) {
                     let delta = *r.pick(&[0i64, 0, 0, 0, 1, 1000, 500_000, 900_000, 1_200_000, -1, 2_000_000]);
